@@ -50,6 +50,10 @@ type Prog struct {
 }
 
 func goEnv(goarch string) []string {
+	goos := "linux"
+	if i := strings.IndexByte(goarch, '/'); i >= 0 {
+		goos, goarch = goarch[:i], goarch[i+1:]
+	}
 	env := []string{}
 	for _, kv := range os.Environ() {
 		k := kv
@@ -62,7 +66,7 @@ func goEnv(goarch string) []string {
 		}
 		env = append(env, kv)
 	}
-	env = append(env, "GOFLAGS=-mod=mod", "GOWORK=off", "GOPROXY=off", "GOTOOLCHAIN=local", "GOOS=linux",
+	env = append(env, "GOFLAGS=-mod=mod", "GOWORK=off", "GOPROXY=off", "GOTOOLCHAIN=local", "GOOS="+goos,
 		"GOARCH="+goarch, "CGO_ENABLED=0")
 	// go/packages runs `go list` from PATH: make sure it is the pinned toolchain.
 	for i, kv := range env {
